@@ -6,7 +6,7 @@ from common import *
 PROP = 'C19'
 PROPS_V = 'Props/C19.v'
 COQ_IMPORTS = ['Base.Str', 'Base.Value', 'IO.Dump']
-RULE = ('cases = dumps of 1-3 resources x 0-N rows (N = 4 quick, 40 thorough) in CSV and JSON format into a fresh directory; a '
+RULE = ('cases = dumps of 1-3 resources x 0-N rows (N = 4 quick, 40 thorough) in CSV and JSON (round 8: also Excel) format into a fresh directory; a '
         'child process is killed before every single file operation of dump_to_path (temp-file create/write/close, '
         'makedirs, destination open / each copy chunk / close, unlink; copies are chunked so a kill can leave any chunk '
         'prefix); exhaustive over operation indices per case; non-trivial = kill strictly inside the dump; '
@@ -169,6 +169,10 @@ def gen_cases(rng, tier):
         extra += [({'resource-bytes': None}, ['a/b.csv', None]), ({'resource-rowcount': None, 'datapackage-bytes': None}, ['x\\y\\z.csv', 'x/y.csv'])]
     cases.append({'kind': 'crash', 'pkg': [[{'a': 10 * i + j, 's': 'é%d' % j} for j in range(n)] for i, n in enumerate([3, 2])], 'format': 'csv',
                   'shape': [3, 2], 'chunk': 48, 'stopper': True})
+    # the formats whose writer saves the file by name instead of writing through the open handle (round 8)
+    for fmt in ('excel', 'xlsx'):
+        cases.append({'kind': 'crash', 'pkg': [[{'a': 10 * i + j, 's': 'é%d' % j} for j in range(n)] for i, n in enumerate([2, 1])], 'format': fmt,
+                      'shape': [2, 1], 'chunk': 48})
     for k, (counters, paths) in enumerate(extra):
         fmt = 'csv' if k % 2 == 0 else 'json'
         pkg = [[{'a': 10 * i + j, 's': 'é%d' % j} for j in range(n)] for i, n in enumerate([2, 1])]
@@ -252,8 +256,36 @@ def run_impl(case):
         r = inspect(d, off) if os.path.isdir(d) else {'descriptor': 'absent'}
         r.update({'res': ri, 'row': k, 'raised': raised})
         raises.append(r)
+    # a later step that stops reading early, and a source that fails in the part that step never asks for: the dumper reads
+    # that part itself, so the failure is the run's failure and no descriptor may tell of a complete package (round 8)
+    unread = []
+    if case.get('stopper'):
+        for ri, rows in enumerate(case['pkg']):
+            # (past the 100 rows the source link reads ahead to infer the schema: a failure inside them is a failure of that link)
+            long_rows = [dict(rows[0], a=j) for j in range(130)]
+            for k in (105, 129, 130):
+                d = os.path.join(base, 'u%d_%d' % (ri, k))
+
+                def failing(rows=long_rows, k=k):
+                    for j, r in enumerate(rows):
+                        if j == k:
+                            raise RuntimeError('the source breaks down at row %d' % k)
+                        yield dict(r)
+                    if k == len(rows):
+                        raise RuntimeError('the source breaks down at its end')
+                links = [list(r) for r in case['pkg']]
+                links[ri] = failing()
+                try:
+                    with quiet():
+                        Flow(*(links + [DF.dump_to_path(d, **dump_kw(case))] + later_steps(case))).process()
+                    raised = False
+                except Exception:
+                    raised = True
+                r = inspect(d, off) if os.path.isdir(d) else {'descriptor': 'absent'}
+                r.update({'res': ri, 'row': k, 'raised': raised})
+                unread.append(r)
     shutil.rmtree(base, ignore_errors=True)
-    return {'ops': ops, 'final': final, 'kills': kills, 'raises': raises, 'parseable_proper_prefixes': prefix_parse}
+    return {'ops': ops, 'final': final, 'kills': kills, 'raises': raises, 'unread': unread, 'parseable_proper_prefixes': prefix_parse}
 
 
 def oracle(case, out):
@@ -273,6 +305,13 @@ def oracle(case, out):
         if rr['descriptor'] == 'parseable' and rr['bad']:
             return 'a later step raised at row %d of resource %d: a parseable datapackage.json is present but %s' % (
                 rr['row'], rr['res'], '; '.join(rr['bad']))
+    for rr in out.get('unread', []):
+        if not rr['raised']:
+            return ('the source of resource %d broke down at row %d, in the part a later step never reads (the dumper reads it): '
+                    'the run returned normally (descriptor: %s)') % (rr['res'], rr['row'], rr['descriptor'])
+        if rr['descriptor'] == 'parseable' and rr['bad']:
+            return 'the source of resource %d broke down at row %d behind an early-stopping step: a parseable datapackage.json is present but %s' % (
+                rr['res'], rr['row'], '; '.join(rr['bad']))
     return None
 
 
@@ -287,6 +326,8 @@ def collapse(seq):
 def coq_term(case, out):
     if 'error' in out:
         return None
+    if case['format'] in ('excel', 'xlsx'):
+        return None      # the workbook is saved by name, not written through the handle the model follows: decided by the oracle
     kinds = {'tmp_create': 0, 'tmp_write': 1, 'tmp_close': 2, 'out_open': 3, 'out_chunk': 4, 'out_close': 5, 'unlink': 6}
     real = collapse([kinds[o] for o in out['ops'] if o in kinds])
     n = len(case['pkg'])
